@@ -16,6 +16,6 @@ MANIFEST = {
     "category": "proof",
     "design_ref": "DESIGN.md §5 C16",
     "technique": "Lean 4 theorems about the model of the derived table views + verified reference closure/reachability compared with the dumped state graph",
-    "text": "Theorems (Props/C16.lean): the state_actions bit of a cell is set iff its final action is not an error; state_shifts = the shift cells; core_reduces holds exactly one production per distinct (rule, length) among the row's reductions and nothing else; reduce_only iff no shift/accept and exactly one such pair; a shift's target is the edge on that token; on a certified automaton goto and shift targets equal the graph's edges; the reference LR(1) closure is the least closed superset of the kernel (closure_exact) and the reference reachable set is exact (reachable_exact). Every dumped automaton is compared: views with the model, closed states with the reference closure of their core (equality of item sets AND lookahead sets, empty-lookahead items included), reachability of all states.",
+    "text": "Theorems (Props/C16.lean): the state_actions bit of a cell is set iff its final action is not an error; state_shifts = the shift cells; core_reduces holds exactly one production per distinct (rule, length) among the row's reductions and nothing else; reduce_only iff no shift/accept and exactly one such pair; a shift's target is the edge on that token; on a certified automaton goto and shift targets equal the graph's edges; the reference LR(1) closure is the least closed superset of the kernel (closure_exact) and the reference reachable set is exact (reachable_exact); both reference computations always terminate with an answer (closure_total, reachable_total). Every dumped automaton is compared: views with the model, closed states with the reference closure of their core (equality of item sets AND lookahead sets, empty-lookahead items included), reachability of all states.",
     "note": "Per-automaton validation against verified references; the grammar quantifier is sampled. The bit-level encode/decode round trip is C20.action_roundtrip. Trusted: Lean kernel, dump through the public API, orchestrator.",
 }
